@@ -27,7 +27,7 @@ char *igris_i64toa(int64_t num, char *buf, uint8_t base)
     {
         *(p++) = '-';
         p1++;
-        ud = -num;
+        ud = 0 - (uint64_t)num;
     }
     else
     {
